@@ -31,8 +31,13 @@ func main() {
 	verbose := flag.Bool("v", false, "verbose")
 	logsmt := flag.String("log-smt", "", "write worker 0's SMT-LIB stream to this file")
 	evidence := flag.String("evidence", "", "evidence file to write (default evidence/<property>.json)")
+	replayF := flag.String("replay", "", "re-execute the counterexample of a replay file against the current tree")
 	noEvidence := flag.Bool("no-evidence", false, "do not write evidence")
 	flag.Parse()
+	currentTier = *tier
+	if *replayF != "" {
+		os.Exit(runReplay(*repo, *verif, *replayF, *tier))
+	}
 	if *suiteF == "" {
 		fmt.Fprintln(os.Stderr, "usage: symgo -suite harness/<id>/harness.json [-tier quick|thorough]")
 		os.Exit(2)
@@ -214,17 +219,73 @@ func (k *knownFile) text(id string) string {
 	return id
 }
 
+var currentTier = "quick"
+
 func writeReplay(verif, prop, harness string, v *sym.Violation, P *sym.Program) string {
 	dir := filepath.Join(verif, "replays", prop)
 	os.MkdirAll(dir, 0o755)
 	h := sha256.Sum256([]byte(fmt.Sprint(harness, v.Label, v.Inputs, v.EnumChoices)))
 	path := filepath.Join(dir, fmt.Sprintf("%s-%x.json", harness, h[:4]))
 	rec := map[string]interface{}{
-		"property": prop, "harness": harness, "violation": v, "repo_head": gitHead(P.RepoDir),
+		"property": prop, "harness": harness, "violation": v, "repo_head": gitHead(P.RepoDir), "tier": currentTier,
 	}
 	b, _ := json.MarshalIndent(rec, "", " ")
 	os.WriteFile(path, b, 0o644)
 	return path
+}
+
+// runReplay re-executes a recorded counterexample concretely (inputs and enumerated choices
+// fixed) against the current working tree of the repository and reports whether the same
+// violation shows again.
+func runReplay(repo, verif, file, tier string) int {
+	b, err := os.ReadFile(file)
+	if err != nil {
+		fmt.Fprintln(os.Stderr, "replay:", err)
+		return 2
+	}
+	var rec struct {
+		Property  string         `json:"property"`
+		Harness   string         `json:"harness"`
+		RepoHead  string         `json:"repo_head"`
+		Violation *sym.Violation `json:"violation"`
+		Tier      string         `json:"tier"`
+	}
+	if err := json.Unmarshal(b, &rec); err != nil || rec.Violation == nil {
+		fmt.Fprintln(os.Stderr, "replay: cannot parse", file, err)
+		return 2
+	}
+	// the suite that owns the harness: the property's own suite, or any suite listing it
+	suite := filepath.Join(verif, "harness", rec.Property, "harness.json")
+	P, err := sym.Load(repo, verif, suite)
+	if err != nil {
+		fmt.Fprintln(os.Stderr, "INCONCLUSIVE: load failed:", err)
+		return 2
+	}
+	for i := range P.Suite.Harnesses {
+		h := &P.Suite.Harnesses[i]
+		if h.Name != rec.Harness {
+			continue
+		}
+		v := rec.Violation
+		v.Confirmed = map[string]string{}
+		if rec.Tier != "" {
+			tier = rec.Tier
+		}
+		out := P.Replay(h, sym.RunOpts{Tier: tier}, v)
+		fmt.Printf("replay of %s (%s, recorded at %s) on %s\n", rec.Harness, v.Label, rec.RepoHead, gitHead(repo))
+		for _, in := range v.Inputs {
+			fmt.Printf("  %s = %d\n", in.Name, in.Value)
+		}
+		fmt.Println("  outcome:", out)
+		if v.Confirmed["engine_concrete"] == "yes" {
+			fmt.Printf("VIOLATION property=%s replay=%s\n", rec.Property, file)
+			return 1
+		}
+		fmt.Println("the recorded violation does not show on this tree")
+		return 0
+	}
+	fmt.Fprintln(os.Stderr, "replay: harness", rec.Harness, "not found in", suite)
+	return 2
 }
 
 func gitHead(repo string) string {
